@@ -22,13 +22,17 @@ import vlib
 # a Z 0 9 _ - . : / e-acute arabic-indic-digit-three NUL space
 ALPHA = ["a", "Z", "0", "9", "_", "-", ".", ":", "/", "é", "٣", "\x00", " "]
 ALPHA_ARG = ",".join("%x" % ord(c) for c in ALPHA)
-DEFAULT_TAIL = "P:err I:err E:err B:err M:err O:err W:eeeeee Y:e T:eeee"
+DEFAULT_TAIL = "P:err I:err E:err B:err M:err O:err W:eeeeee Y:eeeeee T:eeeeee R:ee H:eeeeee"
 NAMES = {"P": "validate_object_path", "I": "validate_interface", "E": "validate_errorname",
          "B": "validate_busname", "M": "validate_membername", "O": "ObjectPath::new"}
 WPOS = ["path", "interface", "member", "error_name", "destination", "sender"]
 WKEY = ["P", "I", "M", "E", "B", "B"]          # the validator that decides each header position
 WCONF = ["Call/minimal", "Call/full", "Signal/minimal", "Signal/full", "Reply/minimal", "Reply/full", "Error/minimal", "Error/full"]
-CTORS = ["ObjectPath::<String>::new", "TryFrom<&str> for ObjectPath", "TryFrom<String> for ObjectPath", "ObjectPath::new(&str) + to_owned"]
+CTORS = ["ObjectPath::<String>::new", "TryFrom<&str> for ObjectPath", "TryFrom<String> for ObjectPath", "ObjectPath::new(&str) + to_owned",
+         "impl Unmarshal for ObjectPath<&str> (decoding the wrapper from body bytes)", "impl Unmarshal for ObjectPath<String> (decoding the wrapper from body bytes)"]
+ROUTES = ["params::Base::ObjectPath(String)", "params::Base::ObjectPathRef(&str)", "an array element (Param API)", "a variant value (Param API)",
+          "a dict key (Param API)", "a struct field (Param API)"]
+RECV = ["MessageBodyParser::get_param", "MarshalledMessageBody::validate (validate_raw)"]
 
 # frames (prefix, suffix) around one scalar value; their letters x b m q 1 7 are not in ALPHA, so
 # frame strings never coincide with enumerated strings (except the bare character, accounted for)
@@ -234,13 +238,42 @@ def judge(impl_line, model_line):
             viol.append("the typed Marshal impl refuses a valid ObjectPath (%s)" % CTORS[c])
         elif ti != tm:
             other.append("%s then typed marshal: %s (model %s)" % (CTORS[c], ti, tm))
-    spec_ok = m["P"] == "ok"
-    if i["Y"] == "o" and not spec_ok:
-        viol.append("a forbidden object path is written into a message body")
-    elif i["Y"] in ("e", "p") and spec_ok:
-        viol.append("a valid object path is refused in a message body")
-    elif i["Y"] != m["Y"]:
-        other.append("body object path: %s (model %s)" % (i["Y"], m["Y"]))
+    for c, (yi, ym) in enumerate(zip(i.get("Y", "??????"), m.get("Y", "??????"))):
+        if ym != ("o" if path_ok else "e"):
+            other.append("model body-path verdict inconsistent with model validator")
+        if yi in ("o", "x") and not path_ok:
+            viol.append("a forbidden object path is written into a message body as %s" % ROUTES[c])
+        elif yi in ("e", "p") and path_ok:
+            viol.append("a valid object path is refused in a message body as %s" % ROUTES[c])
+        elif yi != ym:
+            other.append("body object path as %s: %s (model %s)" % (ROUTES[c], yi, ym))
+    for c, (ri, rm) in enumerate(zip(i.get("R", "??"), m.get("R", "??"))):
+        if rm != ("o" if path_ok else "e"):
+            other.append("model receive verdict inconsistent with model validator")
+        if ri in ("o", "x") and not path_ok:
+            viol.append("%s accepts from the wire an object path the specification forbids" % RECV[c])
+        elif ri in ("e", "p") and path_ok:
+            viol.append("%s refuses an object path a conforming peer may send" % RECV[c])
+        elif ri != rm:
+            other.append("%s: %s (model %s)" % (RECV[c], ri, rm))
+    hdetail = {}
+    for part in (i.get("HD") or "").split(","):
+        if "=" in part:
+            k, v = part.split("=", 1)
+            hdetail[int(k)] = v
+    for pos, (hi, hm) in enumerate(zip(i.get("H", "??????"), m.get("H", "??????"))):
+        spec_ok = m[WKEY[pos]] == "ok"
+        if hm != ("o" if spec_ok else "e"):
+            other.append("model header-decode verdict inconsistent with model validator at %s" % WPOS[pos])
+        letters = hdetail.get(pos, hi * 8) if hi == "m" else hi * 8
+        def hconfs(ch):
+            return ",".join(WCONF[c] for c, l in enumerate(letters) if l == ch)
+        if "o" in letters and not spec_ok:
+            viol.append("the header decoder accepts a %s the specification forbids (%s message)" % (WPOS[pos], hconfs("o")))
+        elif ("e" in letters or "p" in letters) and spec_ok:
+            viol.append("the header decoder refuses a %s a conforming peer may send (%s message)" % (WPOS[pos], hconfs("e") or hconfs("p")))
+        elif hi != hm:
+            other.append("header decode with the string as %s: %s %s (model %s)" % (WPOS[pos], hi, hdetail.get(pos, ""), hm))
     return viol, other
 
 
@@ -353,10 +386,14 @@ def run(ctx):
                 "frames (/x<c>, x.<c>b, :1.<c>, m<c>, <c> alone, ...); (3) the 253..257/300/302/511-byte boundary built from valid shapes of "
                 "every kind, also with 2/3/4-byte characters next to the boundary; (4) grammar-generated valid names of every kind and "
                 "their single/double mutations, random long names, a fixed list, the corpus. Every string goes to the five validators, "
-                "every public ObjectPath constructor (new for &str and String, TryFrom<&str>, TryFrom<String>, to_owned) followed by the typed "
-                "Marshal impl with the value read back from the body bytes, marshal() with the string in each of the six header name positions "
+                "every way of obtaining an ObjectPath wrapper (new for &str and String, TryFrom<&str>, TryFrom<String>, to_owned, impl Unmarshal for "
+                "ObjectPath<&str>/<String> on body bytes holding the string) followed by the typed Marshal impl with the value read back from the body "
+                "bytes, marshal() with the string in each of the six header name positions "
                 "in 8 configurations (message type Call/Signal/Reply/Error built with the public builders x only-required-fields/all-fields, names "
-                "read back from the header bytes), and a body object path via params::Base::ObjectPath. "
+                "read back from the header bytes), a body object path pushed with the Param API by six routes (Base::ObjectPath, Base::ObjectPathRef, array "
+                "element, variant value, dict key, struct field; exact body bytes compared), and the receive direction: body bytes holding the string "
+                "as type o through get_param and MarshalledMessageBody::validate, and a hand-encoded header carrying the string in each name position "
+                "(same 8 configurations) through unmarshal_header + unmarshal_dynamic_header. "
                 "A case is non-trivial when some verdict accepts it or it contains both a separator (/ . :) and a name character; "
                 "distinct = distinct strings") % (maxlen, scan_txt if thorough else scan_txt % NSAMPLE_CPS, len(FRAMES))
     ctx.trusted = ["Coq 8.16.1 kernel (coqc), no native_compute",
@@ -367,6 +404,7 @@ def run(ctx):
     ctx.assumptions = ["SignatureWrapper (the other wrapper type in wrapper_types.rs) belongs to C07 (signatures), not to this property",
                        "strings are Rust &str (valid UTF-8); the model works on the list of scalar values",
                        "usize is 64 bit (the cnt = i + 1 counter cannot overflow for strings of at most 255 bytes in any case)",
+                       "the receive theorems (C08_receive, C08_receive_path) take the result of the string decoder (read_str: length, UTF-8, NUL, terminator) as given; that decoder, and header well-formedness beyond the names, are C03's and C06's subject",
                        "the wire corollary records what marshal_header_* write as (field code, string); the byte layout is C02/C05's subject; the harness reads the names back from the real bytes"]
     ctx.try_proof()
     exe = vlib.harness_build(["c08"])["c08"]
